@@ -1,5 +1,5 @@
 (* C11 - End of stack is told apart from truncation; null is never a frame. *)
-From FH Require Import Consts Word X86 A64 Unwinder X86Unw A64Unw X86Exec A64Exec A64Walk IterFacts ModFacts HistFacts StaticFacts TruncFacts TruncWalk.
+From FH Require Import Consts Word X86 A64 Unwinder X86Unw A64Unw X86Exec A64Exec A64Walk IterFacts ModFacts HistFacts StaticFacts TruncFacts TruncWalk DwarfRow Cfi X86Dwarf StaticSuff.
 From Coq Require Import List. Import ListNotations.
 Open Scope N_scope.
 
@@ -100,4 +100,22 @@ Example C11_all_static_example :
   all_static rule mdata cb_static_x86 (mkunw mdata [mkmod 0x1000 0x2000 0x1000 0 MNone] 0).
 Proof.
   intros x first md rel H. destruct (find_module_only_container _ _ _ _ _ H) as [[<-|[]] _]. cbn. discriminate.
+Qed.
+
+(* which unwinders are rule-based throughout? A condition that can be read off the modules (Proofs/StaticSuff.v):
+   every module has no unwind data or DWARF CFI - any presentation - all of whose rows compress into a rule *)
+Theorem C11_rule_based_sufficient_x86 : forall u : xunwinder,
+  (forall md, In md (mods _ u) -> module_rule_based_x86 md) -> all_static rule mdata cb_static_x86 u.
+Proof. exact all_static_x86. Qed.
+Print Assumptions C11_rule_based_sufficient_x86.
+
+Example C11_rule_based_dwarf_example :
+  let f := mkfde 0x1000 0x40 [(0, mkrow (CfaRegOff DW_RSP 8) RSameValue (ROffset (-8)));
+                              (4, mkrow (CfaRegOff DW_RSP 32) RSameValue (ROffset (-8)));
+                              (9, mkrow (CfaRegOff DW_RSP 40) (ROffset (-16)) (ROffset (-8)))] true in
+  all_static rule mdata cb_static_x86 (mkunw mdata [mkmod 0x400000 0x402000 0x400000 0 (MDwarf POwnEh [f])] 7).
+Proof.
+  cbv zeta. apply all_static_x86. intros md [<-|[]]. unfold module_rule_based_x86. cbn [mdat].
+  intros f [<-|[]] rw Hrw. cbn [f_rows map snd] in Hrw.
+  destruct Hrw as [<-|[<-|[<-|[]]]]; vm_compute; discriminate.
 Qed.
